@@ -176,6 +176,20 @@ FAMILIES = {
         sharing=False,
         runs={"quick": [dict(mode="bfs", max_nodes=3)], "thorough": [dict(mode="bfs", max_nodes=4)]},
         shards=[["ds"]], shard_defs={"ds": "SK_ds"}),
+    "selectors": dict(
+        consts=dict(Raises="NoRaises", Kinds="FSL_Kinds", Paths="FSL_Paths", Consts="FSL_Consts", Tmpls="None0",
+                    Fns="None0", Bodies="None0", DispVals="FSL_Disp", Preds="None0", Presets="None0",
+                    MapPaths="None0", Leaves="FSL_Leaves"),
+        sharing=False,
+        runs={"quick": [dict(mode="bfs", max_nodes=4)], "thorough": [dict(mode="bfs", max_nodes=5)]},
+        shards=[["coalesce"], ["switch"], ["opt"]], shard_defs={"coalesce": "SK_coalesce", "switch": "SK_switch", "opt": "SK_opt"}),
+    "overloads": dict(
+        consts=dict(Raises="NoRaises", Kinds="FD_KindsB", Paths="FD_Paths", Consts="None0", Tmpls="None0",
+                    Fns="None0", Bodies="FOV_Bodies", DispVals="FD_Disp", Preds="None0", Presets="None0",
+                    MapPaths="None0", Leaves="FOV_Leaves", Cbs="NoCb"),
+        sharing=False,
+        runs={"quick": [dict(mode="bfs", max_nodes=5, split=4)], "thorough": [dict(mode="bfs", max_nodes=6, split=8)]},
+        shards=[["ds"]], shard_defs={"ds": "SK_ds"}),
     "cases": dict(
         consts=dict(Raises="NoRaises", Kinds="FCS_Kinds", Paths="FCS_Paths", Consts="FCS_Consts", Tmpls="None0",
                     Fns="None0", Bodies="None0", DispVals="NoSeq", Preds="FCS_Preds", Presets="None0",
